@@ -29,6 +29,30 @@ Constructs == {
   "@Dbackground:url(@Qdata:text/plain,a%20b@Q)",
   "@Dbackground:url(@Qdata:image/svg+xml,<svg xmlns=@Ohttp://www.w3.org/2000/svg@O/>@Q)",
   "@Dbackground-image:url(@Qx.png@Q),url(@Qy.png@Q)",
+  \* data URIs in both encodings whose decoded payload contains the characters that are special inside url(): ( ) ' " blank backslash
+  "@Dbackground:url(@Qdata:text/plain;base64,Zih4KStnKHkp@Q)",
+  "@Dbackground:url(@Qdata:text/x;base64,aXQncw==@Q)",
+  "@Dbackground:url(@Qdata:text/x;base64,YSJi@Q)",
+  "@Dbackground:url(@Qdata:text/x;base64,YSBi@Q)",
+  "@Dbackground:url(@Qdata:text/x;base64,YVxi@Q)",
+  "@Dbackground:url(@Qdata:text/x;base64,YSli@Q)",
+  "@Dbackground:url(@Qdata:;base64,KGE=@Q)",
+  "@Dbackground:url(@Qdata:text/x;base64,YSdiImMoZCllIGY=@Q)",
+  "@Dbackground:url(@Qdata:image/svg+xml;base64,PHN2ZyB4bWxucz0iaHR0cDovL3d3dy53My5vcmcvMjAwMC9zdmciPjxnIHRyYW5zZm9ybT0idHJhbnNsYXRlKDEpIi8+PC9zdmc+@Q)",
+  "@Dbackground:url(data:text/plain;base64,Zih4KStnKHkp)",
+  "@Dbackground:url(data:text/x;base64,aXQncw==)",
+  "@Dbackground:url(@Qdata:,f(x)+g(y)@Q)",
+  "@Dbackground:url(@Qdata:,f%28x%29+g%28y%29@Q)",
+  "@Dbackground:url(@Qdata:text/x,it%27s@Q)",
+  "@Dbackground:url(@Qdata:text/x,a%22b@Q)",
+  "@Dbackground:url(@Qdata:text/x,a%20b@Q)",
+  "@Dbackground:url(@Qdata:text/x,a%5Cb@Q)",
+  "@Dbackground:url(@Qdata:text/x,a b@Q)",
+  "@Dbackground:url(@Qdata:text/x,a@Ob@Q)",
+  "@Dbackground:url(@Qdata:image/svg+xml,%3Csvg xmlns=%27http://www.w3.org/2000/svg%27%3E%3Cg transform=%27translate(1)%27/%3E%3C/svg%3E@Q)",
+  "@Dbackground:url(@Qa\\ @Q)",
+  "@import url(a\\ );a{b:c}",
+  "@import url(@Qa\\@Q);a{b:c}",
   "@Dcursor:url(@Qx.cur@Q),auto",
   "@Dfont-family:@QTimes New Roman@Q,serif",
   "@Dfont-family:@QArial@Q",
